@@ -42,4 +42,21 @@ def updateBounds {V : Type} (clash : V → V → Bool) (old : Option V × Option
   | .ok l, .ok u => if clash l u then (old, some .incompatible) else ((some l, some u), Option.none)
   | lo, up => ((lo.value?, up.value?), Option.none)
 
+/-- operations in the life of a distribution object that matter for its box -/
+inductive DistOp (V : Type) where
+  | setBounds (lo up : BoundArg V)    -- update_bounds (may be refused)
+  | roundTrip                         -- pickle / dill / copy.copy / copy.deepcopy: the copy replaces the object
+
+def DistOp.isRoundTrip {V : Type} : DistOp V → Bool
+  | .roundTrip => true
+  | _ => false
+
+/-- the bounds in force after one operation: a copy carries the whole instance state, bounds included -/
+def distStep {V : Type} (clash : V → V → Bool) (b : Option V × Option V) : DistOp V → Option V × Option V
+  | .setBounds lo up => (updateBounds clash b lo up).1
+  | .roundTrip => b
+
+def distRun {V : Type} (clash : V → V → Bool) (b : Option V × Option V) (ops : List (DistOp V)) : Option V × Option V :=
+  ops.foldl (distStep clash) b
+
 end HmcVerif
